@@ -38,8 +38,8 @@ func init() {
 		"io.WriteString":                extIOWriteString,
 		"errors.New":                    extNewError,
 		"fmt.Errorf":                    extNewError,
-		"math.Floor":                    extMath1(func(x string) string { return fmt.Sprintf("(to_real (to_int %s))", x) }),
-		"math.Ceil":                     extMath1(func(x string) string { return fmt.Sprintf("(- (to_real (to_int (- %s))))", x) }),
+		"math.Floor":                    extFloorCeil(true),
+		"math.Ceil":                     extFloorCeil(false),
 		"math.Abs":                      extMath1(func(x string) string { return fmt.Sprintf("(ite (>= %s 0.0) %s (- %s))", x, x, x) }),
 		"unicode/utf8.RuneCountInString": extRuneCount,
 		"fmt.Sprintf":                    extSprintf,
@@ -463,7 +463,7 @@ func extIOWriteString(fr *frame, st *state, c *ssa.CallCommon, args []string, po
 	i := sc.fresh("i")
 	sc.assume(fmt.Sprintf("(forall ((%s Int)) (! (= (select %s %s) (ite (and (>= %s %s) (< %s (+ %s %s))) (sat %s (- %s %s)) (select %s %s))) :pattern ((select %s %s))))", i, nd, i, i, ln, i, ln, n, s, i, ln, data, i, nd, i))
 	// an arbitrary writer may also do other things allowed to callbacks
-	fc.havocKeys(st, []string{"MD|Int|Val", "MV|Int|Val"})
+	fc.havocKeys(st, []string{"MD|Int|Val|map_string_stick.Value", "MV|Int|Val|map_string_stick.Value"})
 	fc.hset(st, "BD", app("store", fc.hget(st, "BD"), buf, nd))
 	fc.hset(st, "BL", app("store", fc.hget(st, "BL"), buf, fmt.Sprintf("(+ %s %s)", ln, n)))
 	wf := "X|wfail|Bool"
@@ -517,4 +517,27 @@ func extSprintf(fr *frame, st *state, c *ssa.CallCommon, args []string, pos toke
 		sc.assume(fmt.Sprintf("(= %s (sf_fmtv %s))", r, x))
 	}
 	return []string{r}
+}
+
+// math.Floor / math.Ceil as uninterpreted functions with their defining linear bounds; integrality is
+// expressed through an integer witness (no to_int in the query).
+func extFloorCeil(floor bool) extHandler {
+	return func(fr *frame, st *state, c *ssa.CallCommon, args []string, pos token.Pos) []string {
+		sc := fr.fc.sc
+		u := fr.fc.e.u
+		x := args[0]
+		name := "rceil"
+		if floor {
+			name = "rfloor"
+		}
+		u.global(fmt.Sprintf("(declare-fun %s (Real) Real)", name))
+		u.global(fmt.Sprintf("(declare-fun %s_int (Real) Int)", name))
+		r := sc.define("m", "Real", app(name, x))
+		if floor {
+			sc.assume(fmt.Sprintf("(and (<= %s %s) (< %s (+ %s 1.0)) (= %s (to_real (%s_int %s))))", r, x, x, r, r, name, x))
+		} else {
+			sc.assume(fmt.Sprintf("(and (>= %s %s) (> %s (- %s 1.0)) (= %s (to_real (%s_int %s))))", r, x, x, r, r, name, x))
+		}
+		return []string{r}
+	}
 }
